@@ -34,6 +34,24 @@ pub enum Decoder {
     FrameBuf,
 }
 
+/// the decoder table shared with the libFuzzer target (/verif/fuzz): byte 0 of a fuzz input indexes it
+pub const FUZZ_DECODERS: &[Decoder] = &[
+    Decoder::HttpReq,
+    Decoder::HttpResp,
+    Decoder::SocksReq { required: false },
+    Decoder::SocksReq { required: true },
+    Decoder::SocksResp,
+    Decoder::Rpfm,
+    Decoder::H11cHandshake,
+    Decoder::H11cConnect { udp: false },
+    Decoder::H11cConnect { udp: true },
+    Decoder::SocksClient { v5: true, auth: false },
+    Decoder::SocksClient { v5: true, auth: true },
+    Decoder::SocksClient { v5: false, auth: false },
+    Decoder::SocksUdp,
+    Decoder::FrameBuf,
+];
+
 #[derive(Clone, Debug, Default, PartialEq, Eq)]
 pub struct Outcome {
     /// Debug rendering of what was parsed (None = the decoder returned an error / clean EOF)
